@@ -231,7 +231,7 @@ func slotKeyGen(c *simrt.Chooser, tags []string, mix bool) func() []byte {
 }
 
 func init() {
-	Register(&PropertyDef{ID: "C18", Strata: []string{"clean-sync", "clean-pipeline", "clean-parallel", "bad-sync", "bad-pipeline", "bad-parallel", "oddkeys-sync"}, Run: runC18, StepCap: 30000})
+	Register(&PropertyDef{ID: "C18", Strata: []string{"clean-sync", "clean-pipeline", "clean-parallel", "bad-sync", "bad-pipeline", "bad-parallel", "oddkeys-sync", "filtered-sync", "filtered-pipeline", "filtered-parallel"}, Run: runC18, StepCap: 30000})
 }
 
 func runC18(r *Run, stratum string) *Violation {
@@ -253,9 +253,16 @@ func runC18(r *Run, stratum string) *Violation {
 	_ = sub
 	type unitSpec struct {
 		txn   bool
-		cmds  [][][]byte // name + args
+		cmds  [][][]byte // name + args, as the source executed them
 		slots map[int]bool
 		bad   string
+		src   [][][]byte // stratum filtered: what the source stream carries (cmds = what is left after the filters)
+	}
+	if kind == "filtered" {
+		// output filters take commands away before the unit is built: a source transaction that spans slots only through
+		// commands the filters remove is a single-slot unit and must not be refused; one that loses all its commands
+		// is no unit at all and must leave the parser ready for whatever follows
+		cfg.Filters = &FilterSpec{PrefixBlack: []string{"drop:"}}
 	}
 	var units []unitSpec
 	nUnits := 2 + g.Choose("nunits", max)
@@ -355,6 +362,46 @@ func runC18(r *Run, stratum string) *Violation {
 				us.slots[-2] = true
 			}
 		}
+		if kind == "filtered" && !isBad {
+			// commands on keys the prefix blacklist rejects, in slots of their own
+			dropped := func() [][]byte {
+				k := []byte(fmt.Sprintf("drop:{%s-d%d}%d", tagSet[0], g.Choose("droptag", 3), g.Choose("dropkey", 50)))
+				switch g.Choose("dropcmd", 3) {
+				case 0:
+					return [][]byte{[]byte("set"), k, []byte("x")}
+				case 1:
+					return [][]byte{[]byte("del"), k}
+				}
+				return [][]byte{[]byte("rpush"), k, []byte("a"), []byte("b")}
+			}
+			switch g.Choose("filterkind", 4) {
+			case 0: // everything of the unit is filtered out
+				us.src = nil
+				for i := 0; i < n; i++ {
+					us.src = append(us.src, dropped())
+				}
+				us.cmds = nil
+				us.slots = map[int]bool{}
+				units = append(units, us)
+				continue
+			case 1: // a transaction reduced to one slot by the filters
+				us.txn = true
+				us.src = nil
+				at := g.Choose("dropat", len(us.cmds)+1)
+				for i, c := range us.cmds {
+					if i == at {
+						us.src = append(us.src, dropped())
+					}
+					us.src = append(us.src, c)
+				}
+				if at == len(us.cmds) {
+					us.src = append(us.src, dropped())
+				}
+				if g.Choose("dropmore", 2) == 0 {
+					us.src = append(us.src, dropped())
+				}
+			}
+		}
 		if isBad {
 			us.bad = badKind
 		} else if len(us.slots) != 1 {
@@ -384,15 +431,19 @@ func runC18(r *Run, stratum string) *Violation {
 		if g.Choose("pingbetween", 5) == 0 {
 			add(KPing, 0, []byte("ping"))
 		}
-		if us.txn {
+		srcCmds := us.cmds
+		if us.src != nil {
+			srcCmds = us.src
+		}
+		if us.txn || len(srcCmds) != 1 {
 			txnSeq++
 			add(KMulti, txnSeq, []byte("multi"))
-			for _, c := range us.cmds {
+			for _, c := range srcCmds {
 				add(KCmd, txnSeq, c...)
 			}
 			add(KExec, txnSeq, []byte("exec"))
 		} else {
-			add(KCmd, 0, us.cmds[0]...)
+			add(KCmd, 0, srcCmds[0]...)
 		}
 	}
 	l := newClusterLink(r, cfg, st)
@@ -579,6 +630,9 @@ func runC18(r *Run, stratum string) *Violation {
 			setV("C18.refused_good", "a routable unit was refused", "all units are single-slot but the replay ended: %v", l.sendErr)
 		}
 		for i := range units {
+			if len(units[i].cmds) == 0 { // everything filtered out: nothing to execute
+				continue
+			}
 			if matched[i] != 1 && viol == nil {
 				setV("C18.good_unit_missing", "a single-slot unit was not executed exactly once", "unit %d (single slot %v) was executed %d times", i, keysOfMap(units[i].slots), matched[i])
 			}
